@@ -306,6 +306,9 @@ func (d *tsDecor) RebuildIndex(ctx context.Context, src string, ck chunk.Chunk, 
 // it is produced deliberately and has a verdict; everywhere else the statements run with the rebuilder idle, so that
 // the cases of the other streams do not depend on that timing.
 func (r *runner) quiesce() {
+	if r.noQuiesce {
+		return
+	}
 	WaitFor(deadline, func() bool { return len(r.srv.Partitions.VC02Queued()) == 0 })
 }
 
